@@ -133,7 +133,7 @@ package gorums
 //@   requires len(c) > 0 && c[0] != nil && c[0].mgr != nil
 
 //@ func (RawConfiguration).QuorumCall
-//@   props C01 C02 C03 C05 C06 C07 C08 C09
+//@   props C01 C02 C03 C05 C06 C07 C08 C09 C18
 //@   blocks until ctx
 //@   opt effect-tags=C08.a
 //@   nopanic C01 C02
@@ -217,7 +217,7 @@ package gorums
 //@   ensures[C02.c] typeis(err, "QuorumCallError") && err.(QuorumCallError).cause != Incomplete ==> done(ctx) && err.(QuorumCallError).cause == ctxErr(ctx)
 
 //@ func (RawConfiguration).AsyncCall
-//@   props C01 C02 C03 C05 C06 C08 C09
+//@   props C01 C02 C03 C05 C06 C08 C09 C18 C07
 //@   blocks until ctx
 //@   opt effect-tags=C08.a
 //@   nopanic C01 C02
@@ -258,7 +258,7 @@ package gorums
 //@   ensures[C02.f] result != nil && spawned == 1
 
 //@ func (RawConfiguration).handleAsyncCall
-//@   props C01 C02 C07 C08 C18
+//@   props C01 C02 C07 C08 C18 C05
 //@   blocks until ctx
 //@   opt effect-tags=C08.a
 //@   nopanic C01 C02
@@ -430,7 +430,7 @@ package gorums
 //@   ensures c.donech == old(c.donech)
 
 //@ func (RawConfiguration).CorrectableCall
-//@   props C11 C03 C05 C06 C08 C09
+//@   props C11 C03 C05 C06 C08 C09 C18
 //@   blocks until ctx
 //@   opt effect-tags=C08.a
 //@   nopanic C11
@@ -473,7 +473,7 @@ package gorums
 // C09.e / C18.a: a streaming call keeps its routers after a reply; when it ends, the router of EVERY
 // node of the configuration is removed (replied or not), or a late update wedges that node's receiver.
 //@ func (RawConfiguration).handleCorrectableCall
-//@   props C11 C07 C08 C09 C18
+//@   props C11 C07 C08 C09 C18 C05
 //@   blocks until ctx
 //@   opt effect-tags=C08.a
 //@   nopanic C11
@@ -549,13 +549,13 @@ package gorums
 // Decoding never panics, for ARBITRARY bytes b (no precondition on b): the only
 // preconditions are the ones newMessage establishes for the Message handed to grpc.
 //@ func newMessage
-//@   props C13 C04
+//@   props C13 C04 C06 C07
 //@   nopanic C13
 //@   ensures[C13.a] result != nil && result.Metadata != nil && result.msgType == msgType && result.Message == nil
 //@   ensures[C04.d] !wasalloc(result) && !wasalloc(result.Metadata)
 
 //@ func (Codec).gorumsUnmarshal
-//@   props C13
+//@   props C13 C06 C07
 //@   nopanic C13
 //@   requires msg != nil && msg.Metadata != nil
 //@   ghost mname Str = ""
@@ -574,20 +574,28 @@ package gorums
 //@       old(bval(row(b), b)) == frame(x, frame(y, r)) && err == nil ==> \
 //@       decodedFrom(iface("*ordering.Metadata", msg.Metadata)) == x && decodedFrom(msg.Message) == y)))
 
+// The trusted round-trip contract of protobuf (decode(encode(m)) == m, stubs/lib.spec) holds for the
+// options the codec is created with: unknown fields are kept, decoding replaces (does not merge).
+//@ func NewCodec
+//@   props C13 C06 C07
+//@   nopanic C13
+//@   ensures[C13.a] result != nil && !result.unmarshaler.DiscardUnknown && !result.unmarshaler.Merge
+//@   ensures[C13.a] result.unmarshaler.AllowPartial && result.marshaler.AllowPartial
+
 //@ func (Codec).gorumsMarshal
-//@   props C13
+//@   props C13 C06 C07
 //@   nopanic C13
 //@   requires msg != nil
 //@   ensures[C13.a] err == nil ==> bval(row(b), b) == \
 //@       frame(encOf(iface("*ordering.Metadata", msg.Metadata)), frame(encOf(msg.Message), bempty()))
 
 //@ func (Codec).Unmarshal
-//@   props C13
+//@   props C13 C06 C07
 //@   nopanic C13
 //@   requires typeis(m, "*Message") ==> m.(*Message) != nil && m.(*Message).Metadata != nil
 
 //@ func (Codec).Marshal
-//@   props C13
+//@   props C13 C06 C07
 //@   nopanic C13
 //@   requires typeis(m, "*Message") ==> m.(*Message) != nil
 
@@ -628,7 +636,7 @@ package gorums
 //@ field atomicFlag.flag atomic props C15
 
 //@ func (*channel).enqueue
-//@   props C01 C02 C03 C05 C06 C08 C09 C12 C18
+//@   props C01 C02 C03 C05 C06 C08 C09 C12 C18 C07 C11
 //@   nopanic C12
 //@   mode concurrent
 //@   requires c != nil && c.node != nil && req.msg != nil && req.msg.Metadata != nil && req.ctx != nil && c.parentCtx != nil
@@ -656,7 +664,8 @@ package gorums
 //@   ensures[C09.a] responseChan != nil ==> ChCredit[responseChan] == old(ChCredit[responseChan]) - 1
 //@   ensures[C09.a] forall(ch, ch != responseChan ==> ChCredit[ch] == old(ChCredit[ch]))
 //@   blocks until req.ctx
-//@   opt effect-tags=C08.a
+//@   opt effect-tags=C08.a,C12.c
+//@   opt also-until=c.parentCtx
 
 //@ func (*channel).routeResponse
 //@   props C01 C05 C07 C09 C18
@@ -688,7 +697,7 @@ package gorums
 //@   opt effect-tags=C09.a
 
 //@ func (*channel).deleteRouter
-//@   props C09 C18
+//@   props C09 C18 C05 C11
 //@   nopanic C18
 //@   mode concurrent
 //@   requires c != nil
@@ -697,15 +706,24 @@ package gorums
 
 // ---------------------------------------------------------------- rpc.go, unicast.go, multicast.go, callopts.go
 
+// C05.d: message ids are unique because every id is the result of ONE atomic add of 1 to the
+// manager's counter (a load/store pair, however atomic each half is, hands out duplicates).
 //@ func (*RawManager).getMsgID
-//@   props C05
+//@   props C05 C01
 //@   nopanic C05
 //@   mode concurrent
 //@   requires m != nil
+//@   ghost nadd Int = 0
+//@   ghost added Int = 0
+//@   on call "atomic.AddUint64"
+//@     assert[C05.d] arg1 == 1 && nadd == 0
+//@     after set nadd = nadd + 1
+//@     after set added = res0
 //@   ensures[C05.d] result >= 1
+//@   ensures[C05.d] nadd == 1 && result == added
 
 //@ func (*RawNode).RPCCall
-//@   props C03 C05 C06 C08 C09
+//@   props C03 C05 C06 C08 C09 C18 C07
 //@   nopanic C08
 //@   requires n != nil && n.mgr != nil && n.channel != nil && n.channel.node != nil && n.channel.parentCtx != nil && ctx != nil
 //@   ghost nenq Int = 0
@@ -733,7 +751,7 @@ package gorums
 //@   ensures[C06.e] result.callType == callType
 
 //@ func (*RawNode).Unicast
-//@   props C03 C06 C08 C09 C12
+//@   props C03 C06 C08 C09 C12 C18
 //@   nopanic C12
 //@   requires n != nil && n.mgr != nil && n.channel != nil && n.channel.node != nil && n.channel.parentCtx != nil && ctx != nil
 //@   requires forall(m, 0, len(opts), opts[m] != nil)
@@ -755,7 +773,7 @@ package gorums
 //@   opt effect-tags=C08.a
 
 //@ func (RawConfiguration).Multicast
-//@   props C03 C06 C08 C09 C12
+//@   props C03 C06 C08 C09 C12 C18 C05
 //@   nopanic C12
 //@   requires len(c) > 0 && c[0].mgr != nil && forall(m, 0, len(c), c[m] != nil && c[m].channel != nil && \
 //@       c[m].channel.node != nil && c[m].channel.parentCtx != nil)
@@ -793,7 +811,7 @@ package gorums
 //@   opt effect-tags=C08.a
 
 //@ func (*channel).cancelPendingMsgs
-//@   props C05 C07 C09 C18
+//@   props C05 C07 C09 C18 C12
 //@   nopanic C07
 //@   mode concurrent
 //@   requires c != nil && c.node != nil && streamDownErr != nil
@@ -842,14 +860,22 @@ package gorums
 //@   requires c != nil
 //@   blocks never
 
+// Broken-flag protocol (C09.f, C10.e): streamBroken is set exactly when a stream operation failed,
+// while the lock under which the failure was observed is still held (a reconnect, which needs the
+// write lock, cannot slip in between and have its "stream is up" verdict overwritten - the stale
+// flag would send the sender into reconnect against a receiver parked on the healthy stream);
+// it is cleared only under the write lock right after a stream was established.
 //@ func (*channel).sendMsg
-//@   props C03 C06 C07 C08 C09 C12 C15 C18
+//@   props C03 C06 C07 C08 C09 C12 C15 C18 C05 C10
 //@   mode concurrent
 //@   requires c != nil && c.node != nil && req.msg != nil && req.msg.Metadata != nil && req.ctx != nil
 //@   ghost conf Int = 0
 //@   ghost nsend Int = 0
 //@   ghost spawned Int = 0
 //@   ghost nclose Int = 0
+//@   ghost nbroken Int = 0
+//@   ghost sendFailed Bool = false
+//@   ghost sendErr Iface = nilI()
 //@   on call "c.routeResponse"
 //@     assert[C06.e] req.opts.callType != nil && !req.opts.noSendWaiting && conf == 0
 //@     assert[C05.a] arg0 == req.msg.Metadata.MessageID && arg1 == zero("response")
@@ -859,16 +885,24 @@ package gorums
 //@     assert[C03.b] nsend == 0 && arg0 == iface("*Message", req.msg) && heldR(c.streamMut)
 //@     assert[C08.b] spawned == 1 && nclose == 0
 //@     after set nsend = nsend + 1
+//@     after set sendFailed = res0 != nil
+//@     after set sendErr = res0
 //@   on go "func*"
 //@     assert[C18.b] spawned == 0
 //@     set spawned = spawned + 1
 //@   on close "done"
 //@     assert[C18.b] spawned == 1 && nclose == 0
 //@     set nclose = nclose + 1
+//@   on call "c.streamBroken.set"
+//@     assert[C09.f] heldR(c.streamMut) && sendFailed
+//@     set nbroken = nbroken + 1
+//@   ensures[C09.f,C07.d] sendFailed ==> nbroken == 1
+//@   ensures[C09.f] !sendFailed ==> nbroken == 0
 //@   ensures[C06.e,C18.a] req.opts.callType != nil && !req.opts.noSendWaiting ==> conf == 1
 //@   ensures[C06.e] !(req.opts.callType != nil && !req.opts.noSendWaiting) ==> conf == 0
 //@   ensures[C18.b] spawned == nclose && spawned <= 1
 //@   ensures[C03.b,C06.d] nsend <= 1 && (nsend == 0 ==> err != nil)
+//@   ensures[C07.d] nsend == 1 ==> err == sendErr
 //@   blocks until req.ctx
 //@   opt effect-tags=C08.b
 //@   opt external-ok=SendMsg
@@ -917,19 +951,26 @@ package gorums
 //@   opt external-ok=sendMsg,connect
 
 //@ func (*channel).receiver
-//@   props C05 C07 C09 C12
+//@   props C05 C07 C09 C12 C10 C18 C03
 //@   mode concurrent
 //@   requires c != nil && c.node != nil && c.parentCtx != nil && streamDownErr != nil
 //@   ghost cancelled Int = 0
 //@   ghost owing Bool = false
+//@   ghost marked Bool = true
 //@   loop "for {"
 //@     invariant cancelled == 0 && !owing
 //@   on call "c.gorumsStream.RecvMsg"
+//@     assert[C09.f] heldR(c.streamMut)
 //@     after set owing = res0 != nil
+//@     after set marked = res0 == nil
+//@   on call "c.streamBroken.set"
+//@     assert[C09.f] heldR(c.streamMut) && owing
+//@     set marked = true
 //@   on return
 //@     assert[C07.e,C12.b] !owing
 //@   on call "c.cancelPendingMsgs"
 //@     assert[C09.b] nolocks()
+//@     assert[C09.f] marked
 //@     after set cancelled = 1
 //@     after set owing = false
 //@   on call "c.reconnect"
@@ -944,38 +985,103 @@ package gorums
 //@   opt external-ok=RecvMsg,reconnect
 
 //@ func (*channel).newNodeStream
-//@   props C03 C10 C15
+//@   props C03 C10 C15 C09 C12
 //@   mode concurrent
 //@   requires c != nil && c.parentCtx != nil && c.node != nil && streamDownErr != nil
 //@   ghost nrecv Int = 0
+//@   ghost cleared Bool = false
+//@   ghost estab Bool = false
+//@   ghost streamOK Bool = false
 //@   on call "c.gorumsClient.NodeStream"
 //@     assert[C10.c] ctxParent(arg0) == c.parentCtx && held(c.streamMut)
 //@   on go "c.receiver"
 //@     assert[C03.b] nrecv == 0
+//@     assert[C10.e] cleared && estab
 //@     set nrecv = nrecv + 1
+//@   on call "c.streamBroken.clear"
+//@     assert[C10.e] streamOK
+//@     set cleared = true
+//@   on call "c.connEstablished.set"
+//@     set estab = true
+//@   on call "c.gorumsClient.NodeStream"
+//@     after set streamOK = res1 == nil
 //@   ensures[C10.a] conn == nil ==> result != nil
+//@   ensures[C10.e] result == nil ==> cleared && streamOK
+//@   ensures[C10.e] result != nil ==> !cleared && nrecv == 0
 //@   ensures[C03.b] nrecv <= 1
 
 //@ func (*channel).reconnect
-//@   props C09 C10 C12 C15
+//@   props C09 C10 C12 C15 C07
 //@   mode concurrent
 //@   requires c != nil && c.parentCtx != nil
 //@   ghost checked Bool = false
+//@   ghost lastOK Bool = false
+//@   ghost outcome Int = 0
+//@   ghost nwait Real = 0.0
+//@   loop "for {"
+//@     invariant[C10.e] retries == nwait && outcome == 0
 //@   on call "c.streamMut.Lock"
 //@     after set checked = false
+//@     after set lastOK = false
 //@   on call "c.streamBroken.get"
 //@     set checked = held(c.streamMut)
+//@     after set outcome = res0 ? outcome : 1
 //@   on call "c.gorumsClient.NodeStream"
 //@     assert[C09.d,C10.a] checked
 //@     assert[C10.c] ctxParent(arg0) == c.parentCtx && held(c.streamMut)
+//@     after set lastOK = res1 == nil
+//@   on call "c.streamBroken.clear"
+//@     assert[C10.e] held(c.streamMut) && lastOK
+//@     set outcome = 1
+//@   on call "c.cancelStream"
+//@     assert[C10.e] held(c.streamMut) && !lastOK && checked
+//@   on call "c.streamBroken.set"
+//@     assert[C10.e] maxRetries > 0.0 && retries >= maxRetries && !lastOK
+//@     set outcome = 2
+//@   on select
+//@     assert[C10.e] maxRetries <= 0.0 || retries < maxRetries
+//@   on recv "time.After*"
+//@     set nwait = nwait + 1.0
+//@   on recv "c.parentCtx.Done()"
+//@     set outcome = 3
+//@   on return
+//@     assert[C10.e] outcome != 0
 //@   blocks until c.parentCtx
 //@   opt effect-tags=C12.a
 //@   opt external-ok=NodeStream
 
 //@ func (*channel).connect
-//@   props C10 C12
+//@   props C10 C12 C09 C06
 //@   mode concurrent
 //@   requires c != nil && c.node != nil && c.parentCtx != nil && streamDownErr != nil
+//@   ghost estab Bool = true
+//@   ghost dialed Bool = false
+//@   ghost failed Bool = false
+//@   ghost nset Int = 0
+//@   ghost needRc Bool = false
+//@   ghost rc Bool = false
+//@   on call "c.connEstablished.get"
+//@     after set estab = res0
+//@   on call "c.node.dial"
+//@     assert[C10.e] !estab
+//@     after set dialed = res0 == nil
+//@     after set failed = res0 != nil
+//@   on call "c.newNodeStream"
+//@     assert[C10.e] !estab && dialed && arg0 == c.node.conn
+//@     after set failed = res0 != nil
+//@   on call "c.streamBroken.set"
+//@     assert[C10.e] failed
+//@     set nset = nset + 1
+//@   on call "c.streamBroken.get"
+//@     after set needRc = res0
+//@   on call "c.reconnect"
+//@     assert[C10.e] needRc && arg0 == 1.0
+//@     set rc = true
+//@   ensures[C10.e] result != nil <==> failed
+//@   ensures[C10.e] failed ==> nset == 1
+//@   ensures[C10.e] result == nil && needRc ==> rc
+//@   ensures[C10.e] !estab && result == nil ==> dialed
+//@   opt optional-hooks=0
 
 //@ func newChannel
 //@   props C03 C10 C12
@@ -1010,7 +1116,7 @@ package gorums
 //@   blocks until ctx
 
 //@ func (*ServerCtx).Release
-//@   props C04
+//@   props C04 C03
 //@   nopanic C04
 //@   requires ctx != nil && ctx.once != nil && ctx.mut != nil
 //@   ghost viaOnce Int = 0
@@ -1225,7 +1331,7 @@ package gorums
 // sorted by id. Ghosts: T = the temporary slice append(o.old, o.add...) that is ranged
 // over; pos[id] = slot of the node with that id in nodes; src[i] = index in T of nodes[i].
 //@ func (addConfig).newConfig
-//@   props C14
+//@   props C14 C15
 //@   nopanic C14
 //@   requires mgr != nil && len(o.old) > 0
 //@   requires forall(k, 0, len(o.old), o.old[k] != nil) && forall(k, 0, len(o.add), o.add[k] != nil)
@@ -1292,7 +1398,7 @@ package gorums
 //@   ensures[C14.a] result <==> exists(k, 0, len(c), c[k].id == id)
 
 //@ func (nodeIDs).newConfig
-//@   props C14
+//@   props C14 C15
 //@   nopanic C14
 //@   requires mgr != nil && mgr.lookup != nil
 //@   requires forall(id, in(id, mgr.lookup) ==> mgr.lookup[id] != nil && mgr.lookup[id].id == id)
@@ -1329,7 +1435,7 @@ package gorums
 // WithNodeList: one node per distinct address, carrying that address; an address whose
 // generated id is registered for a different address is rejected (C14.g).
 //@ func (nodeList).newConfig
-//@   props C14
+//@   props C14 C15
 //@   nopanic C14
 //@   requires mgr != nil && mgr.lookup != nil
 //@   requires forall(id, in(id, mgr.lookup) ==> mgr.lookup[id] != nil && mgr.lookup[id].id == id)
@@ -1433,7 +1539,7 @@ package gorums
 // result (C14.e) is not claimed here: the map model does not tie len(m) > 0 to the
 // existence of a key.
 //@ func (nodeIDMap).newConfig
-//@   props C14
+//@   props C14 C15
 //@   nopanic C14
 //@   requires mgr != nil && mgr.lookup != nil
 //@   requires forall(id, in(id, mgr.lookup) ==> mgr.lookup[id] != nil && mgr.lookup[id].id == id)
